@@ -33,7 +33,7 @@ fn sizes(shape: &Shape, origin: Origin) -> (u32, u32) {
 fn osu_origin(shape: &Shape, origin: Origin) -> OsuScoreOrigin {
     let Shape::Osu { sliders, large_ticks, .. } = *shape else { return OsuScoreOrigin::Stable };
     match origin {
-        Origin::Stable => OsuScoreOrigin::Stable,
+        Origin::Stable | Origin::StableClassicHeadAcc => OsuScoreOrigin::Stable,
         Origin::Lazer | Origin::LazerClassicHeadAcc => OsuScoreOrigin::WithSliderAcc { max_large_ticks: large_ticks, max_slider_ends: sliders },
         Origin::LazerClassic => OsuScoreOrigin::WithoutSliderAcc { max_large_ticks: sliders + large_ticks, max_small_ticks: sliders },
     }
@@ -50,8 +50,7 @@ fn accuracy_of(shape: &Shape, origin: Origin, s: &ScoreState) -> f64 {
 }
 
 /// All achievable accuracies for the shape with `misses` misses, the slider parts fixed as in `template`.
-fn achievable(shape: &Shape, origin: Origin, misses: u32, template: &ScoreState) -> Vec<f64> {
-    let (_, n_total) = sizes(shape, origin);
+fn achievable(shape: &Shape, origin: Origin, n_total: u32, misses: u32, template: &ScoreState) -> Vec<f64> {
     let rem = n_total - misses;
     let mut out = Vec::new();
     match shape {
@@ -104,15 +103,20 @@ fn achievable(shape: &Shape, origin: Origin, misses: u32, template: &ScoreState)
 }
 
 /// The oracle for one (shape, origin, misses, priority, target).
-fn check_target(shape: &Shape, origin: Origin, misses: Option<u32>, worst: bool, target: f64, cache: &mut Option<(u32, Vec<f64>)>) -> Result<bool, String> {
-    check_target_via(shape, origin, misses, worst, target, cache, 0)
+fn check_target(shape: &Shape, origin: Origin, misses: Option<u32>, worst: bool, target: f64, cache: &mut Option<(u32, Vec<f64>)>, passed: Option<u32>) -> Result<bool, String> {
+    check_target_via(shape, origin, misses, worst, target, cache, 0, passed)
 }
 
 #[allow(clippy::too_many_arguments)]
-fn check_target_via(shape: &Shape, origin: Origin, misses: Option<u32>, worst: bool, target: f64, cache: &mut Option<(u32, Vec<f64>)>, route: u8) -> Result<bool, String> {
-    let p = Provided { accuracy: Some(target), misses, worst_case: Some(worst), via_setters: route == 1, via_inspect: route.saturating_sub(1), ..Provided::default() };
+fn check_target_via(shape: &Shape, origin: Origin, misses: Option<u32>, worst: bool, target: f64, cache: &mut Option<(u32, Vec<f64>)>, route: u8, passed: Option<u32>) -> Result<bool, String> {
+    let p = Provided { accuracy: Some(target), misses, worst_case: Some(worst), via_setters: route == 1, via_inspect: route.saturating_sub(1), passed, ..Provided::default() };
     let s = p.apply(shape.attrs(), origin).generate_state();
-    let (n_obj, n_total) = sizes(shape, origin);
+    let (mut n_obj, mut n_total) = sizes(shape, origin);
+    // a passed_objects prefix on attribute-based calculators (osu!, taiko): that many objects are judged
+    if let (Some(k), Shape::Osu { .. } | Shape::Taiko { .. }) = (passed, shape) {
+        n_obj = n_obj.min(k);
+        n_total = n_total.min(k);
+    }
     let expect_misses = misses.unwrap_or(0).min(n_obj);
     if s.misses != expect_misses {
         return Err(format!("misses: provided {misses:?}, {n_obj} objects, state has {}", s.misses));
@@ -127,7 +131,7 @@ fn check_target_via(shape: &Shape, origin: Origin, misses: Option<u32>, worst: b
         return Err(format!("state does not distribute exactly N={n_total} judgements: {s:?}"));
     }
     if cache.as_ref().is_none_or(|c| c.0 != s.misses) {
-        *cache = Some((s.misses, achievable(shape, origin, s.misses, &s)));
+        *cache = Some((s.misses, achievable(shape, origin, n_total, s.misses, &s)));
     }
     let accs = &cache.as_ref().unwrap().1;
     let t = target.clamp(0.0, 100.0) / 100.0;
@@ -207,12 +211,12 @@ fn enumerate(thorough: bool) -> EnumReport {
                 let mut nontrivial = 0u64;
                 let mut failure = None;
                 let mut sample = None;
-                'outer: for origin in [Origin::Stable, Origin::Lazer, Origin::LazerClassic, Origin::LazerClassicHeadAcc] {
+                'outer: for origin in [Origin::Stable, Origin::Lazer, Origin::LazerClassic, Origin::LazerClassicHeadAcc, Origin::StableClassicHeadAcc] {
                     // origins that do not affect the mode are redundant
                     if matches!(shape, Shape::Taiko { .. } | Shape::Catch { .. }) && origin != Origin::Lazer {
                         continue;
                     }
-                    if matches!(shape, Shape::Mania { .. }) && origin == Origin::LazerClassicHeadAcc {
+                    if matches!(shape, Shape::Mania { .. }) && matches!(origin, Origin::LazerClassicHeadAcc | Origin::StableClassicHeadAcc) {
                         continue; // for mania any Classic mod means the classic judgement model (covered by LazerClassic)
                     }
                     let (n_obj, _) = sizes(shape, origin);
@@ -220,7 +224,7 @@ fn enumerate(thorough: bool) -> EnumReport {
                         let mut cache = None;
                         // achievable set for these misses (template: everything else generated by the builder at 100%)
                         let probe = Provided { accuracy: Some(100.0), misses: Some(misses), ..Provided::default() }.apply(shape.attrs(), origin).generate_state();
-                        let accs = achievable(shape, origin, probe.misses, &probe);
+                        let accs = achievable(shape, origin, sizes(shape, origin).1, probe.misses, &probe);
                         let targets = critical_targets(&accs);
                         for worst in [false, true] {
                             if matches!(shape, Shape::Catch { .. }) && worst {
@@ -229,7 +233,7 @@ fn enumerate(thorough: bool) -> EnumReport {
                             for &target in &targets {
                                 evals += 1;
                                 // the origin is expressed in turn through a Difficulty, the Performance setters, and a Difficulty that went through InspectDifficulty (into_difficulty / From)
-                                match check_target_via(shape, origin, Some(misses), worst, target, &mut cache, (evals % 4) as u8) {
+                                match check_target_via(shape, origin, Some(misses), worst, target, &mut cache, (evals % 4) as u8, None) {
                                     Ok(nt) => {
                                         if nt {
                                             nontrivial += 1;
@@ -268,7 +272,7 @@ fn enumerate(thorough: bool) -> EnumReport {
     EnumReport {
         name: "small-shapes-exhaustive",
         rule: format!(
-            "exhaustive enumeration of every small attribute shape (osu: circles 0..=8 x sliders 0..=3 x large ticks 0..=2; taiko: max_combo 0..=12; catch: fruits 0..=6 x droplets 0..=3 x tiny 0..=6; mania: objects 0..={} x hold notes 0..=3) x origin (stable / lazer / lazer+Classic / lazer+Classic with slider-head accuracy switched back on, where it matters; expressed in turn through a Difficulty, through the Performance::lazer/mods setters, and through a Difficulty that went through InspectDifficulty) x every miss count 0..=n_obj+1 x both priorities x the critical target grid (every achievable accuracy of the shape, midpoints of consecutive ones, each +-1e-7 percent, midpoints also +-2e-9 percent, 0, 100, 0.5% lattice). Oracle: brute force over every distribution of hit results over the same objects with the generated miss count (slider-part hits as the state reports): misses == min(given, n_obj), the state distributes exactly N judgements, and |acc(state) - target| <= min over all distributions + 1e-12. Each (shape, origin, misses, priority, target) tuple is distinct by construction; non-trivial: N - misses >= 2 and target strictly between the extreme achievable accuracies.",
+            "exhaustive enumeration of every small attribute shape (osu: circles 0..=8 x sliders 0..=3 x large ticks 0..=2; taiko: max_combo 0..=12; catch: fruits 0..=6 x droplets 0..=3 x tiny 0..=6; mania: objects 0..={} x hold notes 0..=3) x origin (stable / lazer / lazer+Classic / lazer+Classic with slider-head accuracy switched back on / stable carrying that Classic mod, where it matters; expressed in turn through a Difficulty, through the Performance::lazer/mods setters, and through a Difficulty that went through InspectDifficulty) x every miss count 0..=n_obj+1 x both priorities x the critical target grid (every achievable accuracy of the shape, midpoints of consecutive ones, each +-1e-7 percent, midpoints also +-2e-9 percent, 0, 100, 0.5% lattice). Oracle: brute force over every distribution of hit results over the same objects with the generated miss count (slider-part hits as the state reports): misses == min(given, n_obj), the state distributes exactly N judgements, and |acc(state) - target| <= min over all distributions + 1e-12. Each (shape, origin, misses, priority, target) tuple is distinct by construction; non-trivial: N - misses >= 2 and target strictly between the extreme achievable accuracies.",
             if thorough { 8 } else { 7 }
         ),
         evaluations,
@@ -286,7 +290,8 @@ fn direct(v: &Value) -> Result<(), String> {
     let misses = v.get("misses").and_then(Value::as_u64).map(|m| m as u32);
     let worst = v.get("worst_case").and_then(Value::as_bool).unwrap_or(false);
     let target = v.get("target").and_then(|t| t.as_str().and_then(|s| s.parse().ok()).or_else(|| t.as_f64())).ok_or("no target")?;
-    check_target(&shape, origin, misses, worst, target, &mut None).map(|_| ())
+    let passed = v.get("passed").and_then(Value::as_u64).map(|m| m as u32);
+    check_target(&shape, origin, misses, worst, target, &mut None, passed).map(|_| ())
 }
 
 /// Sampled larger shapes.
@@ -300,7 +305,7 @@ fn case_large(t: &mut Tape, info: &mut CaseInfo) -> Result<(), String> {
             Shape::Mania { objects, holds: t.range(0, 4).min(i64::from(objects)) as u32 }
         }
     };
-    let origin = *t.pick(&[Origin::Lazer, Origin::Stable, Origin::LazerClassic, Origin::LazerClassicHeadAcc]);
+    let origin = *t.pick(&[Origin::Lazer, Origin::Stable, Origin::LazerClassic, Origin::LazerClassicHeadAcc, Origin::StableClassicHeadAcc]);
     let (n_obj, _) = sizes(&shape, origin);
     let misses = match t.weighted(&[3, 5, 1]) {
         0 => None,
@@ -313,14 +318,18 @@ fn case_large(t: &mut Tape, info: &mut CaseInfo) -> Result<(), String> {
         1 => t.float(0.0, 100.0),
         _ => *t.pick(&[100.0, 0.0, 99.99, 66.6667, 33.3333]),
     };
+    // a quarter of the osu! / taiko shapes is limited to a passed_objects prefix (attribute-based calculators keep
+    // the full-map attributes, so the prefix only reaches the state generation through this setting)
+    let passed = if matches!(shape, Shape::Osu { .. } | Shape::Taiko { .. }) && t.chance(1, 4) { Some(t.range(0, i64::from(n_obj) + 2) as u32) } else { None };
     info.label(format!("mode={:?}", shape.mode()));
     info.label(format!("origin={origin:?}"));
+    info.label_if(passed.is_some(), "passed_objects");
     if info.want_sample {
-        info.sample = Some(json!({"shape": shape.describe(), "origin": format!("{origin:?}"), "misses": misses, "worst_case": worst, "target_accuracy": target}));
-        info.direct = Some(json!({"shape": shape_json(&shape), "origin": format!("{origin:?}"), "misses": misses, "worst_case": worst, "target": format!("{target:?}")}));
+        info.sample = Some(json!({"shape": shape.describe(), "origin": format!("{origin:?}"), "misses": misses, "worst_case": worst, "target_accuracy": target, "passed_objects": passed}));
+        info.direct = Some(json!({"shape": shape_json(&shape), "origin": format!("{origin:?}"), "misses": misses, "worst_case": worst, "target": format!("{target:?}"), "passed": passed}));
     }
     let route = t.below(4) as u8;
-    info.nontrivial = check_target_via(&shape, origin, misses, worst, target, &mut None, route)?;
+    info.nontrivial = check_target_via(&shape, origin, misses, worst, target, &mut None, route, passed)?;
     info.comparisons += 1;
     info.set_key(&format!("{shape:?}{origin:?}{misses:?}{worst}{target}"));
     Ok(())
@@ -341,7 +350,7 @@ pub fn property() -> Property {
             },
             SubCheck {
                 name: "sampled-large-shapes",
-                rule: "sampled larger shapes (osu up to 600 objects, taiko up to 600, catch up to 400 fruits+droplets and 400 tiny droplets, mania up to 36 objects + 4 hold notes, 5 categories) x origin x miss count x priority x target accuracy in [0,100]; same brute-force oracle. Non-trivial as in the enumeration stage.",
+                rule: "sampled larger shapes (osu up to 600 objects, taiko up to 600, catch up to 400 fruits+droplets and 400 tiny droplets, mania up to 36 objects + 4 hold notes, 5 categories) x origin x miss count (up to beyond the object count) x priority x target accuracy in [0,100] x a passed_objects prefix for a quarter of the osu!/taiko shapes; same brute-force oracle. Non-trivial as in the enumeration stage.",
                 quick: 20_000,
                 thorough: 40_000,
                 tape_len: 32,
